@@ -1,6 +1,6 @@
 // General compile-and-scan harness (C01-C05, C12): one case per line, key=value tokens, in order:
 //   <id> [ns=<name>] src=<hex rule text> ...   (each src is one yr_compiler_add_string call, in the preceding ns)
-//        [cext=<t>:<name>:<val>]* [atomq=<hex table>] [strict=1]
+//        [cext=<t>:<name>:<val>]* [atomq=<hex table>] [strict=1] [dis=<rule positions>: yr_rule_disable]
 //        [rext=<t>:<name>:<val>]* [sext=<t>:<name>:<val>]* [fast=1] [atoms=1] [cands=1] [info=1]
 //        buf=<hex> [blocks=<n1>,<n2>,...]
 // output: <id> OK rules=<ns>:<rule>=<0|1>,... m=<rule>.<$id>@<off>:<len>:<xorkey>[p];... [atoms=...] [cands=...] [info=...]
@@ -208,6 +208,17 @@ int main()
       int rc = yr_compiler_get_rules(comp, &rules);
       if (rc) { printf("%s CERR get_rules:%s 0\n", toks[0], errname(rc)); failed = 1; }
     }
+    // dis=<i,j,..>: switch off the rules at these positions (declaration order) through the API
+    for (i = 1; i < n && !failed; i++)
+      if (!strncmp(toks[i], "dis=", 4))
+      {
+        char* p[64]; int np = splitc(toks[i] + 4, ',', p, 64);
+        for (int k = 0; k < np; k++)
+        {
+          uint32_t want = (uint32_t) strtoul(p[k], 0, 10);
+          if (want < rules->num_rules) yr_rule_disable(&rules->rules_table[want]);
+        }
+      }
     for (i = 1; i < n && !failed; i++)
       if (!strncmp(toks[i], "rext=", 5))
       {
